@@ -18,6 +18,23 @@ from .common import zlit, zlist, natlist
 
 SH = 300
 
+# Shard files are written to the shared directory coq/C03/gen; two runs of this check at the same time (e.g. the
+# coordinator's seed tests and a builder's run) would overwrite each other's cases_<name>.v while coqc reads them.
+# Every run therefore uses its own name prefix and removes its shard sources when they have been evaluated.
+import os as _os
+RUN = "p%d_" % _os.getpid()
+
+
+def cleanup(ctx, names, res=None):
+    for n in names:
+        if res is not None and res.get(n, (1, ""))[0] != 0:
+            continue                      # keep the source of a shard that failed to compile
+        try:
+            _os.remove(_os.path.join(ctx.gen, "cases_%s.v" % n))
+        except OSError:
+            pass
+
+
 
 def oz(x):
     return "No" if x is None else "(So %s)" % zlit(x)
@@ -134,12 +151,13 @@ class Jobs:
         self.jobs.append((tag, shards, "codes", then))
 
     def run(self, ctx):
-        allsh = [(n, s) for _, shards, _, _ in self.jobs for n, s, _ in shards]
+        allsh = [(RUN + n, s) for _, shards, _, _ in self.jobs for n, s, _ in shards]
         res = common.run_shards(ctx, allsh)
+        cleanup(ctx, [n for n, _ in allsh], res)
         for tag, shards, mode, then in self.jobs:
             vals, off, ok = [], 0, True
             for name, _, cnt in shards:
-                rc, out = res[name]
+                rc, out = res[RUN + name]
                 b = common.parse_coq_list_of_nat(out) if rc == 0 else None
                 if b is None or (mode == "codes" and len(b) != cnt):
                     ctx.violation({"kind": "shard-failed", "layer": tag, "shard": name, "out": out[-700:]}, no_input=True)
